@@ -166,7 +166,15 @@ def check_cases(ctx, cases):
             return outside.setdefault(b, 10**6 + len(outside))
 
         srng = _random.Random(case["sched_seed"])
-        pops, samples, log, queries = [], [], [], [0]
+        pops, samples, queries = [], [], [0]
+
+        class Recorder(list):
+            """the callback is any callable: here one that is also an (at first empty, hence false) list"""
+
+            def __call__(self, o, k):
+                self.append((nid(oid(o)), bool(k)))
+
+        log = Recorder()
 
         class RecSet(set):
             def pop(self):
@@ -226,7 +234,7 @@ def check_cases(ctx, cases):
         err = None
         try:
             with ctx.time_limit(10):
-                rc, rs, rd = discovery.filter_known_objects(Archive(), lambda o, k: log.append((nid(oid(o)), bool(k))))
+                rc, rs, rd = discovery.filter_known_objects(Archive(), log if case["sched_seed"] % 3 else (lambda o, k: log.append((nid(oid(o)), bool(k)))))
         except (RuntimeError, ImplementationHang) as e:
             err = "discovery does not terminate: " + str(e)
         except Exception as e:
